@@ -231,6 +231,10 @@ func genCoroScript(t *core.Tape, noCoInClose bool) (string, map[string]bool) {
 	g := &luaGen{t: t, feat: map[string]bool{}, noCoInClose: noCoInClose}
 	g.nco = 1 + t.Choose(3)
 	g.budget = 12 + t.Choose(30)
+	if coroBig {
+		g.nco = 1 + t.Choose(5)
+		g.budget = 12 + t.Choose(100)
+	}
 	g.b.WriteString(coroPrelude)
 	for k := 1; k <= g.nco; k++ {
 		g.line(`F%d = function(...)`, k)
@@ -328,7 +332,11 @@ func execScriptFree(src string) ([]string, string) {
 	return ev, outcome
 }
 
+// coroBig widens the size ranges of the generated scripts (thorough tier).
+var coroBig bool
+
 func runCoroFree(ctx *core.RunCtx) {
+	coroBig = ctx.Tier == "thorough"
 	if ctx.Mode == "free" {
 		src, feat := genCoroScript(ctx.Gen, false)
 		ctx.Sample = src
